@@ -74,12 +74,17 @@ def _root():
     return r
 
 
+# the source is a non-UTF-8 file with a coding comment and non-ASCII text: the module file is written in that
+# encoding and says so in its own first line, so "renders the current source" also covers the bytes of the module
+_HEAD = "## -*- coding: iso-8859-1 -*-\n"
+
+
 def src_text(v):
-    return {"A": "vA|${1+1}", "B": "vB|${1+1}", "C": "vCCC|${1+1}"}[v]
+    return _HEAD + {"A": "vA\u00e9|${1+1}", "B": "vB\u00fc|${1+1}", "C": "vCCC\u00e9\u00fc|${1+1}"}[v]
 
 
 def marker(v):
-    return {"A": "vA|2", "B": "vB|2", "C": "vCCC|2"}[v]
+    return {"A": "vA\u00e9|2", "B": "vB\u00fc|2", "C": "vCCC\u00e9\u00fc|2"}[v]
 
 
 class Env:
@@ -199,8 +204,8 @@ class Env:
         self.fds = []
 
     def write_src(self, v, mtime):
-        with open(self.src, "w") as f:
-            f.write(src_text(v))
+        with open(self.src, "wb") as f:
+            f.write(src_text(v).encode("iso-8859-1"))
         os.utime(self.src, (mtime, mtime))
 
     def module_bytes(self):
